@@ -126,3 +126,10 @@ def eq_zero(x, y):
     if x == 0:
         return y
     return x * y
+
+
+SCALE = 0.125
+
+
+def scaled(x, SCALE):  # noqa: N803  an argument named like a module-level constant
+    return x * SCALE
